@@ -97,6 +97,9 @@ MODEL_SCRIPT = """{observe_src}
 text = {text!r}
 via, want, drop, shape = {via!r}, {want!r}, {drop!r}, {shape!r}
 acceptable = {acceptable!r}
+warm = {warm!r}
+if warm is not None:  # an earlier parse in the same process (its own fate is not what is observed)
+    model_outcome(warm, "file", want, drop, shape)
 got = model_outcome(text, via, want, drop, shape)
 if got not in acceptable:
     print("expected one of:")
@@ -116,8 +119,8 @@ def model_acceptable(res, drop=()):
     return acc
 
 
-def model_script(text, acceptable, via="file", want=None, drop=(), shape="model"):
-    return MODEL_SCRIPT.format(observe_src=impl.OBSERVE_SRC, text=text, via=via, want=want, drop=list(drop), acceptable=acceptable, shape=shape)
+def model_script(text, acceptable, via="file", want=None, drop=(), shape="model", warm=None):
+    return MODEL_SCRIPT.format(observe_src=impl.OBSERVE_SRC, text=text, via=via, want=want, drop=list(drop), acceptable=acceptable, shape=shape, warm=warm)
 
 
 def check_outcome(ctx, key, text, acceptable, via="file", want=None, msg="", drop=(), shape="full"):
@@ -164,10 +167,14 @@ def check_model(ctx, key, text, res, via="file", want=None, msg="", drop=()):
             observed=got,
             script=model_script(text, acc, via, want, drop),
         )
+    elif envs.STRIDE and via == "file":
+        envs.after_model(ctx, key, text, got, want, drop)  # E1-M: every STRIDE-th case again under every environment
     return got
 
 
 def replay_model_case(case, key):
+    if case.get("warm") is not None:
+        impl.model_outcome(case["warm"], "file", case.get("want"), case.get("drop", ()), case.get("shape", "model"))
     got = impl.model_outcome(case["text"], case.get("via", "file"), case.get("want"), case.get("drop", ()), case.get("shape", "model"))
     if got in case["acceptable"]:
         return []
